@@ -81,6 +81,31 @@ PROBES.update({
  "overloads_without_impl": "from typing import overload, Protocol\nclass P(Protocol):\n    @overload\n    def f(self, x: int) -> int: ...\n    @overload\n    def f(self, x: str) -> str: ...\n\nclass Q(Protocol):\n    @overload\n    def f(self, x: int) -> int: ...\n    @overload\n    def f(self, x: str) -> str: ...\n",
 })
 
+# wave 15: declaration forms tried by hand; enum_odd, star_unpacking and index_assignment_targets aborted the tool (repaired by 255b0b9, f84993a)
+PROBES.update({
+ 'class_kwargs_meta': 'class Meta(type):\n    def __new__(mcs, name, bases, ns, **kw):\n        return super().__new__(mcs, name, bases, ns)\n\nclass A(metaclass=Meta, flag=True):\n    x: int = 1\n',
+ 'slots_and_decorated_class': "import functools\n\ndef deco(cls):\n    return cls\n\n@deco\nclass S:\n    __slots__ = ('a', 'b')\n    def __init__(self, a: int, b: str) -> None:\n        self.a = a\n        self.b = b\n\n@functools.total_ordering\nclass T:\n    def __eq__(self, o: object) -> bool:\n        return True\n    def __lt__(self, o: 'T') -> bool:\n        return False\n",
+ 'type_checking_block': "from typing import TYPE_CHECKING\nif TYPE_CHECKING:\n    from mypkg.other import K\n    def only_typed(x: K) -> K: ...\nelse:\n    def only_typed(x):\n        return x\n\ndef uses(k: 'K') -> 'K':\n    return k\n",
+ 'try_import_fallback': 'try:\n    import numpy as np\nexcept ImportError:\n    np = None\n\ntry:\n    from mypkg.other import g\nexcept ImportError:\n    def g() -> int:\n        return 0\n\ndef f(a=np) -> int:\n    return g()\n',
+ 'global_and_augassign': 'COUNT = 0\n\ndef bump(n: int = 1) -> int:\n    global COUNT\n    COUNT += n\n    return COUNT\n\nclass C:\n    total: int = 0\n    def add(self, n: int) -> None:\n        self.total += n\n        C.total -= 1\n',
+ 'annotated_without_value': "class A:\n    x: int\n    y: 'list[A]'\n    def __init__(self) -> None:\n        self.z: float\n        self.w: str | None\n\nv: int\n",
+ 'star_unpacking': 'first, *rest = [1, 2, 3]\n\nclass A:\n    a, *b = (1, 2, 3)\n    def __init__(self, xs: list[int]) -> None:\n        self.h, *self.t = xs\n        (self.p, self.q), self.r = (1, 2), 3\n',
+ 'walrus_and_odd_defaults': "def f(a=(n := 3), b=-1.5e3, c=b'by', d=f'{1}', e=..., g=not None, h=1 if True else 2, i=[x for x in range(2)], j={1, 2}, k=print, l=int.__add__):\n    return a\n",
+ 'posonly_kwonly_mix': 'def f(a, b=1, /, c=2, *, d, e=3, **kw) -> None:\n    pass\n\ndef g(*, only: int) -> None:\n    pass\n\ndef h(a, /) -> None:\n    pass\n\nclass A:\n    def m(self, /, a, *, b=1) -> None:\n        pass\n    @staticmethod\n    def s(*args, **kwargs) -> None:\n        pass\n',
+ 'self_importing_module': 'import mypkg.self_importing_module as me\nfrom mypkg import self_importing_module\n\ndef f() -> int:\n    return 1\n\nalias = me.f\n',
+ 'same_named_base_other_module': 'import mypkg.other as o\n\nclass K(o.K):\n    def extra(self) -> int:\n        return 1\n\nclass J(K):\n    pass\n',
+ 'nested_generics_deep': 'def f(a: dict[str, list[tuple[int, dict[str, set[frozenset[int]]]]]], b: list[list[list[list[list[int]]]]] | None = None) -> tuple[tuple[tuple[int, str], float], ...]:\n    ...\n',
+ 'recursive_alias': "from typing import Union\nJson = Union[dict[str, 'Json'], list['Json'], str, int, None]\n\ndef load(x: Json) -> Json:\n    return x\n",
+ 'doc_type_odd_strings': 'def f(a, b, c, d, e):\n    """Do.\n\n    Parameters\n    ----------\n    a : list[int\n        unbalanced\n    b : int or (str or float)\n        nested or\n    c :\n        empty type\n    d : class\n        keyword as type\n    e : dict[str, list[int] | None] | tuple[int, ...], optional\n        long\n\n    Returns\n    -------\n    lambda\n        keyword\n    """\n    return a\n',
+ 'doc_type_odd_google': 'def f(a, b, c):\n    """Do.\n\n    Args:\n        a (list[int): unbalanced\n        b (): empty\n        c (int | (str, float)): tuple in union\n\n    Returns:\n        (int, str: broken\n    """\n    return a\n',
+ 'doc_type_odd_rest': 'def f(a, b):\n    """Do.\n\n    :param a: unbalanced\n    :type a: dict[str, \n    :param b: empty\n    :type b:\n    :rtype: ]int[\n    """\n    return a\n',
+ 'conditional_defs': "import sys\nif sys.version_info >= (3, 8):\n    def f(x: int) -> int:\n        return x\nelse:\n    def f(x: int) -> str:\n        return str(x)\n\nif sys.platform == 'win32':\n    class P:\n        a = 1\nelse:\n    class P:\n        b = 2\n",
+ 'dunder_all_odd': "__all__ = ['f'] + ['g']\n__all__ += ['A']\n\ndef f() -> None: ...\ndef g() -> None: ...\nclass A: ...\ndef hidden() -> None: ...\n",
+ 'enum_odd': "from enum import Enum, Flag, auto\n\nclass Color(Enum):\n    RED = auto()\n    GREEN = (1, 2)\n    BLUE = 'b'\n    def describe(self) -> str:\n        return self.name\n    @property\n    def is_red(self) -> bool:\n        return self is Color.RED\n\nclass Perm(Flag):\n    R = 4\n    W = 2\n    RW = R | W\n",
+ 'async_and_generators': 'from typing import AsyncIterator, Iterator\n\nasync def agen(n: int) -> AsyncIterator[int]:\n    for i in range(n):\n        yield i\n\ndef gen(n: int) -> Iterator[int]:\n    yield from range(n)\n\nclass A:\n    async def m(self) -> None:\n        pass\n    def __aiter__(self):\n        return self\n    async def __anext__(self) -> int:\n        raise StopAsyncIteration\n',
+ 'index_assignment_targets': "class A:\n    d = {}\n    d['k'] = 1\n    def __init__(self):\n        self.m = {}\n        self.m['a'] = 1\n        self.lst = [1]\n        self.lst[0] = 2\n        self.o = A\n        self.o.x = 3\n",
+})
+
 OTHER = "def g() -> int:\n    return 1\n\n\nclass K:\n    pass\n"
 
 
@@ -90,7 +115,10 @@ EXTRA_FILES = {
                                   "subp/__init__.py": "", "subp/subp.py": "def same_name_fn(a: int) -> int:\n    \"\"\"Doc.\"\"\"\n    ...\n"},
     "utf8_bom_file": {"with_bom.py": "\ufeffclass Bom:\n    \"\"\"Doc of Bom.\"\"\"\n\n    def m(self) -> int:\n        ...\n"},
 }
-PROBES.update({"module_named_like_package": "", "utf8_bom_file": ""})
+EXTRA_FILES.update({
+    'reexport_cycle': {'cyc_a/__init__.py': 'from mypkg.cyc_b import thing_b\nfrom ._a import thing_a\n', 'cyc_a/_a.py': 'def thing_a() -> int:\n    return 1\n', 'cyc_b/__init__.py': 'from ._b import thing_b\n\ndef late():\n    from mypkg.cyc_a import thing_a\n    return thing_a\n', 'cyc_b/_b.py': 'def thing_b() -> int:\n    return 2\n'},
+})
+PROBES.update({"module_named_like_package": "", "utf8_bom_file": "", "reexport_cycle": ""})
 
 
 def probe_package(names: list[str]) -> dict:
